@@ -83,7 +83,8 @@ PROPS = {
             'the single step is mechanised as 26 lemma harnesses over the contracts (C06.step.set_<field>: from an arbitrary stored state, all 23 getters before, the setter, all 23 getters after: the own getter returns the normalised argument, every other getter returns what it returned before); "after ANY sequence of setter calls" is the repetition of that step (each step starts from an arbitrary state), which is not a separate obligation',
             'per-slot setters: the step lemma looks at the cue / loop list getter at the index (ghost element = index); that every OTHER slot is kept is the postcondition other_slots_kept of set_hot_cue_at / set_loop_at themselves (second ghost index), not repeated in the step lemma',
             'a failed (throwing) setter call is not examined here (that is C14)',
-            'NOT covered: schema 1.x (engine_track_impl setters read-modify-write PerformanceData and metadata rows); agreement of the getters with snapshot() is covered only in that both are specified over the same columns with the same conversions (C01 contracts for snapshot())',
+            'getter / snapshot agreement: harness C06.getters_agree_with_snapshot - over the getter contracts and the C01 contract of track_impl::snapshot, with the fetched row taken to consist of the same columns (table-layer assumption again)',
+            'NOT covered: schema 1.x (engine_track_impl setters read-modify-write PerformanceData and metadata rows)',
             'strings are compared by provenance token, vectors through one arbitrary element (ghost indices), as for C01; the waveform setter is specified up to what a round trip needs (length, and every entry for an overview-length waveform)',
             'domain: stored length within +-2^63/1000 s for duration(); stored sample rate in [0, 2^31] for set_waveform',
         ],
